@@ -15,6 +15,8 @@ backend: sat
 loops: 1
 funcs: spiftool_downcase_str
 timeout: 300
+native: safety
+native_includes: strings.c
 */
 #include "vprelude.h"
 #include "strings.h"
